@@ -138,10 +138,11 @@ def grep_forbidden(files):
 # Fact modules per property.  F10 (dispatch order) is split by source file group so that a change in one file
 # disturbs only the checks that rest on it: Files=file.go, Merge=match.go/merge.go/parser.go, Refs=get.go/process1.go,
 # Output=output.go, Eval=process2.go/repeat.go, Escape=finalize.go/validate.go.
-FACTS = {"C01": ["DispatchMerge"], "C02": ["DispatchMerge"], "C03": ["Formats", "DispatchFiles", "DispatchMerge"], "C04": ["Formats"], "C05": ["Formats"],
-         "C06": ["Literals", "DispatchEscape"], "C07": ["Literals", "DispatchEscape", "DispatchMerge"], "C08": ["Safety"], "C09": ["Ranges", "State"],
+FACTS = {"C01": ["DispatchMerge"], "C02": ["DispatchMerge"], "C03": ["Formats", "DispatchFiles", "DispatchMerge", "StateFiles"], "C04": ["Formats"], "C05": ["Formats"],
+         "C06": ["Literals", "DispatchEscape"], "C07": ["Literals", "DispatchEscape", "DispatchMerge"], "C08": ["Safety"], "C09": ["Ranges", "StateParser", "StateFiles"],
          "C10": ["DispatchRefs"], "C11": ["DispatchOutput"], "C12": ["DispatchEval"], "C13": ["DispatchEval"], "C14": ["DispatchEval"],
-         "C15": ["State"], "C16": ["State"], "C17": ["State"], "C18": ["Formats", "Reads", "State"], "C19": ["State"], "C20": ["Formats", "State"]}
+         "C15": ["StateTools"], "C16": ["StateTools"], "C17": ["StateTools"], "C18": ["Formats", "Reads", "StateParser", "StateFiles"], "C19": ["StateParser"],
+         "C20": ["Formats", "StateTools"]}
 
 
 def audit_axioms(pid):
